@@ -44,6 +44,25 @@ def cases(tier, rng, extended=False):
     maxbits = 100 if quick else 115
     for n in list(range(0, 301 if quick else 3000)):
         yield Case(f"factor {n} auto", k=False, tag="small", profiles=["release"] if n > 60 else None)
+    # inputs with all-zero 64-bit words (2^128 + d, a*2^128 + b, 2^192 + d): multiword trial division
+    # and conversions see zero limbs; kept to shapes that finish quickly (prime, or small cofactor)
+    zl = []
+    for base in (1 << 64, 1 << 128, 1 << 192, 1 << 256):
+        for d in range(1, 500 if quick else 4000, 2):
+            zl.append(base + d)
+    for _ in range(120 if quick else 1500):
+        zl.append((rng.getrandbits(rng.randrange(1, 40)) << 128) + rng.getrandbits(rng.randrange(1, 40)) | 1)
+    kept = 0
+    for n in zl:
+        red = n
+        for p in fc.SMALL_PRIMES:
+            while red % p == 0:
+                red //= p
+        if red == 1 or gen.is_prime(red) or red.bit_length() <= 64:
+            kept += 1
+            yield Case(f"factor {n} auto", k=False, tag="zero-limb", profiles=None if kept % 7 == 0 else ["release"])
+            if kept % 5 == 0 and red.bit_length() <= 64 or (kept % 5 == 0 and gen.is_prime(red)):
+                yield Case(f"factor {n} {rng.choice(['siqs', 'ecm'])}", k=False, tag="zero-limb", profiles=["release"])
     for inp in fc.structured_inputs(rng, count, maxbits, classes=("tiny", "s16", "s32", "s52") if quick else ("tiny", "s16", "s32", "s52", "s64")):
         algs = [a for a in fc.ALGOS if fc.allowed(a, inp.n)]
         # sieves on tiny inputs crash (findings under C03); C01 is about returned lists: keep sieves >= 40 bits here
